@@ -237,6 +237,12 @@ func (c ccase) runUpdates(g *mt.Gen, inst *instance, out *cout) {
 		}
 	}
 	n := inst.Seeds()
+	if n == 0 && c.Pending {
+		// the pending write was a Delete of the only item (it completes): a stream without seed values gives no
+		// sign of having subscribed (the RPC returns before the server has), so there must be an item
+		inst.Marker(0, g)
+		n = inst.Seeds()
+	}
 	// one stream's seed values after the other's, the second stream opened only then: a server may send its
 	// seeds while holding a lock of the model (wastepb does), two streams seeding at once would wait for
 	// each other's reader
@@ -270,6 +276,22 @@ func (c ccase) runUpdates(g *mt.Gen, inst *instance, out *cout) {
 		}
 		out.Raw, out.Got, out.Roles = append(out.Raw, raw), append(out.Got, got), append(out.Roles, role)
 	}
+	// the masked List/Get of the same service before the writes and again after them (same mask): the second
+	// one must show what is stored THEN
+	_ = inst.Read(c.Mask.FM())
+	defer func() {
+		if out.Stream != "" {
+			return
+		}
+		raw, got := cloneAll(inst.Read(nil)), cloneAll(inst.Read(c.Mask.FM()))
+		if len(raw) != len(got) {
+			out.Stream = fmt.Sprintf("the masked read after the writes returns %d items, the unmasked read %d", len(got), len(raw))
+			return
+		}
+		for i := range raw {
+			pair(fmt.Sprintf("read-after-writes-item%d", i), raw[i], got[i])
+		}
+	}()
 	same := func(a, b schange) bool { return a.text() == b.text() }
 	shape := func(a schange) string {
 		return fmt.Sprintf("%s old:%v new:%v", a.Type, a.Old != nil, a.New != nil)
